@@ -89,7 +89,12 @@ def run(R):
             rest = [p for p in ps if p not in must]
             R.rng.shuffle(rest)
             return must + rest[:n]
-        kp, dp = pick(kp, 5), pick(dp, 10)
+        import math
+        gk = R.tightest_pieces(h, "kernel", kp, lambda x: 65536 * math.atan(x / 65536.0), lambda x: float(EPS_K), k=4)
+        gd = R.tightest_pieces(h, "atan", dp, lambda x: 65536 * math.atan(x / 65536.0), lambda x: float(TOL), k=8)
+        kp, dp = pick(kp, 3), pick(dp, 6)
+        kp += [p for p in gk if p not in kp]
+        dp += [p for p in gd if p not in dp]
         R.bounds.append("quick tier: %d kernel pieces and %d direct pieces (segment boundaries plus a VERIF_SEED sample); "
                         "Lemma A queries are always full-range" % (len(kp), len(dp)))
     else:
